@@ -61,9 +61,9 @@ CONC_ASSUME = ["schedules are sampled (perturbation at every shim point, GOMAXPR
                "the sequential models of DESIGN.md appendix A are the specification"]
 
 PLANS.update({
-    "C02": dict(level="exploration", jobs=simple("linzcache", (4000, 0), (200000, 0)), assumptions=CONC_ASSUME, min_evaluations=100, inconclusive_tolerance=0.02),
-    "C03": dict(level="exploration", jobs=simple("linzmap", (6000, 0), (300000, 0)), assumptions=CONC_ASSUME, min_evaluations=100, inconclusive_tolerance=0.02),
-    "C04": dict(level="exploration", jobs=simple("linzmap", (6000, 0), (300000, 0)), assumptions=CONC_ASSUME, min_evaluations=100, inconclusive_tolerance=0.02),
+    "C02": dict(level="exploration", jobs=simple("linzcache", (3000, 0), (200000, 0)), assumptions=CONC_ASSUME, min_evaluations=100, inconclusive_tolerance=0.02),
+    "C03": dict(level="exploration", jobs=simple("linzmap", (4000, 0), (300000, 0)), assumptions=CONC_ASSUME, min_evaluations=100, inconclusive_tolerance=0.02),
+    "C04": dict(level="exploration", jobs=simple("linzmap", (4000, 0), (300000, 0)), assumptions=CONC_ASSUME, min_evaluations=100, inconclusive_tolerance=0.02),
     "C05": dict(level="exploration", jobs=simple("atomic", (8000, 0), (300000, 0)), assumptions=CONC_ASSUME, min_evaluations=100),
     "C06": dict(level="exploration", jobs=multi(seq_plan((3000, 0), (100000, 0)), simple("linzcache", (3000, 0), (150000, 0))), assumptions=SEQ_ASSUME + CONC_ASSUME, min_evaluations=100),
     "C10": dict(level="exploration", jobs=keys_jobs, assumptions=["the builtin map[K]int is the reference for Go key equality", "NaN keys and unhashable dynamic values are outside the input domain"], min_evaluations=100),
@@ -98,7 +98,7 @@ PLANS["C01"]["jobs"] = multi(seq_plan((4000, 24), (200000, 400)), simple("linzca
 PLANS["C01"]["assumptions"] = SEQ_ASSUME + CONC_ASSUME
 PLANS["C09"]["jobs"] = multi(seq_plan((2000, 0), (200000, 0)), simple("linzcache", (2000, 0), (100000, 0)))
 PLANS["C09"]["assumptions"] = SEQ_ASSUME + CONC_ASSUME
-PLANS["C12"]["jobs"] = multi(seq_plan((3000, 12), (150000, 300)), simple("seqmap", (800, 0), (50000, 0)), simple("linzmap", (2500, 0), (100000, 0)), simple("linzcache", (1500, 0), (80000, 0)))
+PLANS["C12"]["jobs"] = multi(seq_plan((3000, 12), (150000, 300)), simple("seqmap", (800, 0), (50000, 0)), simple("linzmap", (1500, 0), (100000, 0)), simple("linzcache", (1000, 0), (80000, 0)))
 PLANS["C12"]["assumptions"] = SEQ_ASSUME + CONC_ASSUME
 PLANS["C06"]["jobs"] = multi(seq_plan((3000, 8), (100000, 200)), simple("linzcache", (3000, 0), (150000, 0)), simple("janitor", (1, 0), (20, 0), stripes_q=2), simple("term", (300, 0), (20000, 0), stripes_q=4))
 
